@@ -162,3 +162,8 @@ Definition cannot_honour (c : cfg) (s : dstate) (m : dmsg) (now : Z) : bool :=
   other_server c m || lease_unknown s m || lease_expired s m now || lease_mismatch s m || outside_subnet c s m.
 Definition c12_no_ack_when (c : cfg) (s : dstate) (m : dmsg) (now : Z) (r : option reply) : bool :=
   negb (cannot_honour c s m now) || match r with Some r => negb (is_ack r) | None => true end.
+
+(* the DNS server of non-captured clients from the RAW configuration, as the property words it: the configured
+   (IPv4) server; the real router when none is configured *)
+Definition spec_dns (r : rawcfg) : ip :=
+  match r_dns r with DnsV4 x => x | DnsMapped x => x | _ => r_routerip r end.
